@@ -232,7 +232,7 @@ def run(chk):
                 break
         if shape is None:
             # file-set-number site: flag-set branch assigns FILE-SET-NUMBER from the origin count, not from random
-            shape, detail2 = _fileset_shape(f, g)
+            shape, detail2 = _fileset_shape(f, g, chk)
             detail = detail or detail2
         where = f"{f.module.relpath}:{reads[0].lineno}"
         if shape is None and not detail:
@@ -573,39 +573,32 @@ def _constructs(ix, sc, stmt, cls) -> bool:
     return False
 
 
-def _fileset_shape(f, g):
-    """OriginItem: in the mode, FILE-SET-NUMBER := a count of origins (small, sequential), never a random number."""
-    for ifn, (te, fe) in g.branch.items():
-        test = g.stmt[ifn].test
-        if not any(is_flag_load(x) for x in ast.walk(test)):
-            continue
-        v = eval3(test, lambda a: True if is_flag_load(a) else None)
-        if v is None:
-            continue
-        taken = te if v else fe
-        other = fe if v else te
-        reach = g.reachable(taken, exceptional=False) - g.reachable(other, exceptional=False)
-        stores = [g.stmt[n] for n in reach if isinstance(g.stmt.get(n), ast.Assign)
-                  and any(isinstance(t, ast.Attribute) and t.attr == "value" and "file_set_number" in norm(t)
-                          for t in g.stmt[n].targets)]
-        if not stores:
-            continue
-        rnd = [n for n in reach if g.stmt.get(n) is not None and "random" in norm(g.stmt[n])]
-        if rnd:
-            return None, "in the mode the file set number is still drawn at random"
-        src = norm(stores[0].value)
-        # value must derive from the number of origins
-        names = {x.id for x in ast.walk(stores[0].value) if isinstance(x, ast.Name)}
-        derived = "n_items" in src
-        for n in reach:
-            s = g.stmt.get(n)
-            if isinstance(s, ast.Assign) and any(isinstance(t, ast.Name) and t.id in names for t in s.targets):
-                if "n_items" in norm(s.value) or "len(" in norm(s.value):
-                    derived = True
-        if derived:
-            return "sequential-file-set-number", ""
-        return None, "in the mode the file set number is not derived from the number of origins"
-    return None, ""
+def _fileset_shape(f, g, chk=None):
+    """OriginItem: in the mode, FILE-SET-NUMBER := a count of origins (small, sequential), never a random number.
+    Decided on the value-flow summary: the stores into <attribute>.value made under the flag literal."""
+    from ..terms import attr_stores, contains, subterms, is_call, pp
+    if chk is None:
+        return None, ""
+    summ = chk.terms.inline(f, 2, stop=lambda h: h.cls is not f.cls or h.name == "__init__")
+
+    def flag(l):
+        return l[0] == "attr" and l[2] == FLAG
+    on = [(val, e) for obj, key, val, e in attr_stores(summ) if key == ("const", "value") and any(flag(l) for l in e.pc)]
+    if not on:
+        return None, ""
+
+    def random_source(t):
+        return contains(t, lambda x: x[0] == "global" and ("random" in x[1].split(".") or x[1].split(".")[0] == "secrets"
+                                                            or x[1] in ("uuid.uuid4", "os.urandom", "time.time")))
+
+    def counts_origins(t):
+        # the number of items of the origin's own set: <set>.n_items or len(<collection reached from the set>)
+        return contains(t, lambda x: (x[0] == "attr" and x[2] == "n_items") or is_call(x, "len", 1))
+    if any(random_source(v) for v, _ in on):
+        return None, "in the mode the file set number is still drawn at random"
+    if all(counts_origins(v) for v, _ in on):
+        return "sequential-file-set-number", ""
+    return None, f"in the mode the file set number ({[pp(v)[:50] for v, _ in on]}) is not derived from the number of origins"
 
 
 def _is_allowed_class_plus(tree) -> bool:
